@@ -780,7 +780,7 @@ def check_case(ctx, drv, cb, case, gcc=False):
     t0 = time.time()
     I = impl_run(cb, case)
     impl_time = time.time() - t0
-    want_old = ctx.dist["cases"] % 10 == 0  # cross-check with the older monadic port (PP/Expand.lean) used by the C01/C02 pipeline
+    want_old = ctx.dist["cases"] % 10 == 0  # three-way cross-check: the design-phase monadic port (PP/ExpandOld.lean; no longer used by any pipeline) vs MX.cbiExpand vs the code
     R = None
     if drv is not None and "timeout" not in I:
         if impl_time > EXPENSIVE:
@@ -810,7 +810,7 @@ def check_case(ctx, drv, cb, case, gcc=False):
         same = (o.get("ok") == M.get("ok")) if "ok" in o or "ok" in M else (o.get("exc") == M.get("exc") or "sig" in o)
         ctx.dist["old_model_agrees" if same else "old_model_differs"] += 1
         if not same and len(ctx.notes) < 10:
-            ctx.notes.append(f"PP/Expand.lean (old port) differs from MX.cbiExpand on {small}")
+            ctx.notes.append(f"PP/ExpandOld.lean (old port) differs from MX.cbiExpand on {small}")
     # --- correspondence (every input, well-formed or not)
     if not same_impl_model(I, M, paste="##" in everything(case)):
         ctx.corr_break("c03", small, {k: I[k] for k in I if k != "truth"}, M)
